@@ -15,7 +15,7 @@ ID = 'C08'
 LEVEL = 'exploration'
 RUNS = {'quick': 40000, 'thorough': 800000}
 CHUNK = 100
-PROBES = ['complete_item_between_chunks', 'stale_start_reopened_inside_item', 'unfinished_earlier_call_same_syscall', 'empty_path_vnode_zero', 'timestamp_ties_inside_item', 'lookup_len_boundary', 'lookup_multi_chunk', 'lookup_none_fragment', 'gstr_multi_chunk', 'gstr_none_fragment',
+PROBES = ['clock_does_not_advance', 'same_call_retried', 'complete_item_between_chunks', 'stale_start_reopened_inside_item', 'unfinished_earlier_call_same_syscall', 'empty_path_vnode_zero', 'timestamp_ties_inside_item', 'lookup_len_boundary', 'lookup_multi_chunk', 'lookup_none_fragment', 'gstr_multi_chunk', 'gstr_none_fragment',
           'tname_two_records', 'interrupt_between_chunks', 'single_between_chunks', 'other_thread_between_chunks',
           'other_thread_half_lookup_between', 'window_more_lookups_than_paths', 'window_fewer_lookups_than_paths',
           'window_exact_lookups', 'two_path_syscall', 'multibyte_across_boundary', 'len_184', 'len_0']
@@ -108,10 +108,17 @@ def generate(rng, index, tier):
                         lk.pop('between', None)
                     lookups.append(_decorate(rng, lk, (len(lk['path'].encode()) + 39) // 32, tid))
                 inner = []
+                fs_near = [k for k in cat['all_ids'] if k >> 16 == cat['ids']['VFS_LOOKUP'] >> 16 and k != cat['ids']['VFS_LOOKUP']]
                 for lk in lookups:
                     if rng.chance(0.3):
                         inner.append(_between(rng, tid))
                     inner.append(lk)
+                    if fs_near and rng.chance(0.3):
+                        # what the kernel logs right after a lookup: a single record of a neighbouring file-system code
+                        # (lookup done, with the vnode and a result word)
+                        pref = [k for k in sorted(fs_near) if tool.codes().get(k, '').startswith('VFS_LOOKUP')]
+                        inner.append({'k': 'raw', 'id': rng.pick(pref) if pref and rng.chance(0.6) else rng.pick(sorted(fs_near)), 'q': rng.pick([0, 0, 3]),
+                                      'a': [lk['vnode'], rng.pick([0, 0, 2, 13]), 0, 0]})
                 if rng.chance(0.3):
                     inner.append(_between(rng))
                 s, e = domains.draw(rng, name)
@@ -121,6 +128,9 @@ def generate(rng, index, tier):
                     ops.append({'k': 'sys', 'name': name, 's': s0, 'e': e0, 'noend': True,
                                 'in': [worlds.op_lookup(rng) for _ in range(rng.randint(1, 2))]})
                 ops.append({'k': 'sys', 'name': name, 's': s, 'e': e, 'in': inner})
+                if rng.chance(0.1):
+                    import copy
+                    ops.append(copy.deepcopy(ops[-1]))        # the very same call again (a retry): same arguments, same lookups
             elif r < 0.65:
                 lk = worlds.op_lookup(rng)
                 ops.append(_decorate(rng, lk, (len(lk['path'].encode()) + 39) // 32))
@@ -153,6 +163,8 @@ def generate(rng, index, tier):
     shape = rng.pick(['sensitive', 'sensitive', 'uniform', 'rr1', 'serial'])
     sched = draw_sensitive(rng, per, tool.codes()) if shape == 'sensitive' else kernel.draw_schedule(rng, per, shape)
     scn = {'threads': threads, 'schedule': sched, 'tsmode': worlds.draw_tsmode(rng), 'earlier_other': rng.chance(0.15)}
+    if rng.chance(0.08):
+        scn['tsmode'] = ['frozen', []]
     if rng.chance(0.1):
         scn['table'] = {'remap': {'VFS_LOOKUP': 0x03f00000 | (rng.randrange(1, 1 << 10) << 2)}}
     return scn
@@ -244,6 +256,12 @@ def execute(scn):
         if tail.startswith('c') and tail != 'c0':
             viols.append({'tag': 'continuation-record-produced-trace', 'sig': type(ts[0]).__name__,
                           'detail': 'record %s (a continuation chunk) begins trace %r' % (o, str(ts[0]))})
+    if scn.get('tsmode') and scn['tsmode'][0] == 'frozen':
+        bump('probe:clock_does_not_advance')
+    for th_ in scn['threads']:
+        if any(a_.get('k') == 'sys' and a_ == b_ for a_, b_ in zip(th_['ops'], th_['ops'][1:])):
+            bump('probe:same_call_retried')
+            break
     items = _collect_items(scn['threads'])
     if any(op['k'] in ('tname', 'gstr') and '.b' in o_ for o_, op, _e in items):
         bump('probe:complete_item_between_chunks')
